@@ -145,6 +145,8 @@ def conv(o, depth=0):
             return [conv(x, depth + 1) for x in o]
         if o.classname == "TString" or type(o).__name__.startswith("Model_TString"):
             return None
+        if o.classname in ("TArrayI", "TArrayD", "TArrayF", "TArrayC", "TArrayS", "TArrayL", "TArrayL64"):
+            return [x.item() for x in np.asarray(o)]      # a TArray model keeps its data outside all_members (only fN is there)
         d = {}
         for k, v in o.all_members.items():
             if k.startswith("@") or k in ("fUniqueID", "fBits"):
@@ -192,6 +194,17 @@ def leaves_of(x, out):
         out.append(float(x))
     elif isinstance(x, (int, float)):
         out.append(float(x))
+
+
+def same_nested(a, b):
+    """equality of nested lists / dicts of numbers where NaN equals NaN (some fixture branches hold uninitialised doubles)"""
+    if isinstance(a, dict) and isinstance(b, dict):
+        return list(a) == list(b) and all(same_nested(a[k], b[k]) for k in a)
+    if isinstance(a, (list, tuple)) and isinstance(b, (list, tuple)):
+        return len(a) == len(b) and all(same_nested(x, y) for x, y in zip(a, b))
+    if isinstance(a, float) and isinstance(b, float):
+        return a == b or (a != a and b != b)
+    return a == b
 
 
 def expand_packed(obj_native, obj_pybes3):
@@ -285,7 +298,7 @@ def fixtures(chk: core.Check, thorough: bool):
                             for a_, b_ in ((1, len(pv)), (len(pv) // 2, len(pv) - 1), (len(pv) - 1, len(pv))):
                                 part = ak.to_list(br2.array(entry_start=a_, entry_stop=b_))
                                 chk.count(1, key=f"range-{fn}-{name}-{a_}")
-                                if part != pv[a_:b_]:
+                                if not same_nested(part, pv[a_:b_]):
                                     chk.failing_input("entry range of a collection branch vs the independent decode of the same events", {"file": fn, "branch": name, "entry_start": a_, "entry_stop": b_},
                                                       str(part)[:500], str(pv[a_:b_])[:500], "no member is shifted between objects or moved between events")
                                     return
